@@ -9,6 +9,7 @@ CONSTANTS
   RestartResizes = FALSE
   IgnoreModes = {FALSE}
   AnonModes = {FALSE}
+  MaxFlight = 0
   Faults = TRUE
   AllowWindow = TRUE
   EmitEdges = FALSE
